@@ -15,7 +15,7 @@ RULE = ('workchains whose step registers n<=3 (thorough 4) awaitables (plain fut
         'assertion was evaluated or a failure was delivered')
 RULE += ('; also: completions while paused, registering steps inside if/elif/else/while bodies, one item under two keys, mapping results on re-assigned keys, a registering step that runs another process to completion (nested execute, re-entrant loop policy)')
 ASSUMPTIONS = ['pause/play: the workchain paused while the items complete, then played (finer interleavings are C06)', 'children are processes that wait for the harness (so completion is controlled)']
-REQUIRED = ['barrier_checks', 'ctx_checks', 'failures/exc', 'failures/killed', 'failures/cancel', 'kinds/fut', 'kinds/child', 'kinds/oldchild', 'how/ret', 'how/call', 'terminated_before_registration', 'failure_while_paused', 'nested_runs', 'nested_barrier_checks', 'nested_registered_before_inner_run', 'unprintable_failures', 'uncopyable_results', 'failure_callback_races', 'equal_children_runs', 'falsy_results']
+REQUIRED = ['barrier_checks', 'ctx_checks', 'failures/exc', 'failures/killed', 'failures/cancel', 'kinds/fut', 'kinds/child', 'kinds/oldchild', 'how/ret', 'how/call', 'how/wait', 'how/wait-fut', 'terminated_before_registration', 'failure_while_paused', 'nested_runs', 'nested_barrier_checks', 'nested_registered_before_inner_run', 'unprintable_failures', 'uncopyable_results', 'exception_objects_as_results', 'reserved_name_keys', 'failure_callback_races', 'equal_children_runs', 'falsy_results']
 BOUNDS = {'quick': 'n<=3 awaitables, all completion orders, placements sampled on a grid', 'thorough': 'n<=4, all placements'}
 
 
@@ -49,6 +49,13 @@ def _programs(tier):
     progs['oldchild_two'] = {'steps': [{'pre': [1, 2], 'reg': [['a', 0, 'fut', 'call']], 'ret': None},
                                        {'reg': [['b', 1, 'oldchild', 'ret'], ['c', 2, 'oldchild', 'call']], 'ret': None}, {'reg': [], 'ret': None}]}
     # the registering step is the last instruction of an if_ / elif_ / else_ / while_ body and the outline goes on after it
+    # keys that are also names of the context object's own methods (a key is a key: the entry shadows the method, as in any namespace)
+    progs['reserved_names'] = {'steps': [{'reg': [['get', 0, 'fut', 'ret'], ['setdefault', 1, 'child', 'call']], 'ret': None}, {'reg': [['get', 2, 'fut', 'call']], 'ret': None},
+                                         {'reg': [], 'ret': 'end'}]}
+    # the awaitables of a wait command the step builds itself: a child in there as the process and as its future at once
+    progs['wait_both'] = {'steps': [{'pre': [1], 'reg': [['p', 1, 'oldchild', 'wait'], ['f', 1, 'oldchild', 'wait-fut'], ['g', 1, 'oldchild', 'wait-fut'], ['a', 0, 'fut', 'wait']], 'ret': None},
+                                    {'reg': [], 'ret': None}, {'reg': [], 'ret': 'end'}]}
+    progs['wait_both2'] = {'steps': [{'pre': [0], 'reg': [['f', 0, 'oldchild', 'wait-fut'], ['p', 0, 'oldchild', 'wait']], 'ret': None}, {'reg': [], 'ret': None}]}
     for how in ('if', 'elif', 'else', 'while'):
         for reg_how in ('ret', 'call'):
             progs['in_%s_%s' % (how, reg_how)] = {'steps': [{'reg': [['k0', 0, 'fut', reg_how], ['k1', 1, 'child', 'call']], 'ret': None}, {'reg': [], 'ret': None},
@@ -101,7 +108,7 @@ def gen_cases(tier, seed):
                     # (where a key is assigned again by a later step the results are mappings with different keys, like the outputs
                     # of two different children: the later result replaces the earlier one, it is not merged into it)
                     # (some results are objects that cannot be copied, some errors are falsy or have no printable form)
-                    val = ['value', {'r%d' % idx: idx} if name.startswith('reassign') else rng.choice(['@NOCOPY', '@NOCOPY', 0, '', [], 'v%d' % idx, 'v%d' % idx, 'v%d' % idx, 'v%d' % idx])] if spec[0] == 'value' else (
+                    val = ['value', {'r%d' % idx: idx} if name.startswith('reassign') else rng.choice(['@NOCOPY', '@NOCOPY', '@EXCVAL', '@EXCVAL', 0, '', [], 'v%d' % idx, 'v%d' % idx, 'v%d' % idx, 'v%d' % idx])] if spec[0] == 'value' else (
                         ['exc', rng.choice(['falsy-e%d', 'falsy-e%d', 'unprintable-e%d', 'unprintable-e%d', 'e%d', 'e%d', 'e%d']) % idx] if spec[0] == 'exc' else ['cancel'])
                     acts.append(['complete', idx, val])
                 else:
@@ -208,10 +215,14 @@ def run_case(case):
             obs['unprintable_failures'] = obs.get('unprintable_failures', 0) + 1
         if c[1][0] == 'value' and len(c[1]) > 1 and c[1][1] in (0, '', []):
             obs['falsy_results'] = obs.get('falsy_results', 0) + 1
+        if c[1][0] == 'value' and len(c[1]) > 1 and c[1][1] == '@EXCVAL':
+            obs['exception_objects_as_results'] = obs.get('exception_objects_as_results', 0) + 1  # (a result, not a failure)
         if c[1][0] == 'value' and len(c[1]) > 1 and c[1][1] == '@NOCOPY':
             obs['uncopyable_results'] = obs.get('uncopyable_results', 0) + 1
     for st in steps:
         for _k, _i, kind, how in st['reg']:
+            if _k in ('get', 'setdefault'):
+                obs['reserved_name_keys'] = 1
             obs['kinds'][kind] = obs['kinds'].get(kind, 0) + 1
             obs['how'][how] = obs['how'].get(how, 0) + 1
     for a in rec['acts']:
